@@ -124,11 +124,13 @@ def _explain(diff, c):
         ci = c['vin'][k]
         if txgen.input_is_exotic(ci):
             return 'vin[scriptsig+witness, not nested-consistent]', 'C06-scriptsig-and-witness-not-nested'
-        if txgen.input_has_short_sig(ci):
-            return 'vin[signature-shaped item outside 69..74 bytes]', 'C06-short-signature-not-recognised'
         if loc == 'vin.wit':
             if len(want) == len(got) and all(w == g or (w == b'\x00' and g == b'') for w, g in zip(want, got)):
                 return 'vin.wit[item 1byte:00]->empty', 'C06-zero-byte-item-serialised-empty'
+        if txgen.input_has_short_sig(ci):
+            # (was a finding of its own until the repair ccb8b20; a label only now)
+            return 'vin[signature-shaped item outside 69..74 bytes]', None
+        if loc == 'vin.wit':
             if not got:
                 return 'vin.witness_dropped[%s,ss=%s]' % ('coinbase' if ci['prev'] == '00' * 32 else 'noncoinbase',
                                                           'empty' if not ci['ss'] else 'nonempty'), None
